@@ -26,9 +26,10 @@ Pair level:      a reported (s, c) is forbidden if c is NOMATCH for s (or c is n
                  negative response); required pairs of a MUST service: its own MATCH object; if all own objects are
                  NOMATCH, every MATCH global negative response.
 
-The envelope is deliberately small and boring: whole-byte STANDARD-LENGTH A_UINT32 types (high-low byte order),
+The envelope is deliberately small and boring: STANDARD-LENGTH A_UINT32 types (high-low byte order), whole bytes
+except for CODED-CONSTs (1..32 bits at a bit position; the constants of the prefix must fill whole bytes),
 IDENTICAL compu methods, parameters CODED-CONST, VALUE, MATCHING-REQUEST-PARAM, NRC-CONST, explicit or automatic
-byte positions, bit position 0.  Anything else raises Envelope.
+byte positions.  Anything else raises Envelope.
 """
 from __future__ import annotations
 
@@ -40,6 +41,14 @@ MUST, MAY, MUSTNOT = "MUST", "MAY", "MUST-NOT"
 
 class Envelope(Exception):
     """construct outside what this reference understands"""
+
+
+def _nbits(dct: Dict[str, Any]) -> int:
+    """CODED-CONST: any bit length up to 32 (high-low byte order, placed at a bit position)"""
+    if dct.get("k") != "STD" or dct.get("base") != "A_UINT32" or not 1 <= dct["bits"] <= 32 or dct.get("mask") is not None \
+            or dct.get("enc") is not None or dct.get("hilo") is False:
+        raise Envelope(f"diag coded type {dct}")
+    return dct["bits"]
 
 
 def _nbytes(dct: Dict[str, Any]) -> int:
@@ -89,19 +98,31 @@ class RefLayer:
         cursor = 0
         length = 0
         in_prefix = True
-        prefix = b""
+        pbytes = bytearray()  # bytes of the constant prefix built so far ...
+        cover = bytearray()   # ... and which of their bits are claimed by a constant
         for p in self.msgs[msg]["params"]:
-            if p.get("bit"):
-                raise Envelope("bit position")
             pos = p["byte"] if p.get("byte") is not None else cursor
             t = p["t"]
             hard = False
+            if p.get("bit") and t != "CODED-CONST":
+                raise Envelope("bit position")
             if t == "CODED-CONST":
-                n = _nbytes(p["dct"])
-                arg: Any = int(p["value"]).to_bytes(n, "big")
-                hard = in_prefix and pos == len(prefix)
+                bit, nbits = p.get("bit") or 0, _nbits(p["dct"])
+                n = (bit + nbits + 7) // 8
+                vb = (int(p["value"]) << bit).to_bytes(n, "big")
+                mb = (((1 << nbits) - 1) << bit).to_bytes(n, "big")
+                arg: Any = (vb, mb, bit, nbits)
+                # part of the constant prefix: in the leading run of constants and adjacent to / inside the bytes built so far
+                hard = in_prefix and pos <= len(cover) and all(c == 0xFF for c in cover[:pos])
                 if hard:
-                    prefix += arg
+                    if len(cover) < pos + n:
+                        cover.extend(bytes(pos + n - len(cover)))
+                        pbytes.extend(bytes(pos + n - len(pbytes)))
+                    for i in range(n):
+                        if cover[pos + i] & mb[i]:
+                            raise Envelope("overlapping constants")
+                        cover[pos + i] |= mb[i]
+                        pbytes[pos + i] |= vb[i]
                 else:
                     in_prefix = False
             elif t == "MATCHING-REQUEST-PARAM":
@@ -109,9 +130,10 @@ class RefLayer:
                 rq = p["rq_byte"]
                 known = rp[rq:rq + n]  # the part of the echoed request bytes which is constant for this service
                 arg = known
-                hard = in_prefix and pos == len(prefix) and len(known) == n
+                hard = in_prefix and pos == len(cover) and all(c == 0xFF for c in cover) and len(known) == n
                 if hard:
-                    prefix += known
+                    pbytes.extend(known)
+                    cover.extend(b"\xff" * n)
                 else:
                     in_prefix = False
             elif t == "VALUE":
@@ -130,7 +152,9 @@ class RefLayer:
             steps.append(Step(t, p["name"], pos, n, arg, hard))
             cursor = pos + n
             length = max(length, cursor)
-        return Plan(steps, length, prefix)
+        if any(c != 0xFF for c in cover):
+            raise Envelope("constant prefix ends inside a byte")
+        return Plan(steps, length, bytes(pbytes))
 
     def plan_for(self, msg: str, rp: bytes) -> Plan:
         k = (msg, rp)
@@ -154,11 +178,12 @@ class RefLayer:
         for st in pl.steps:
             raw = M[st.pos:st.pos + st.n]
             if st.kind == "CODED-CONST":
-                if raw != st.arg:
+                vb, mb, bit, nbits = st.arg
+                if bytes(x & m for x, m in zip(raw, mb)) != vb:
                     if st.hard:
                         return NOMATCH, None, "prefix"
                     soft = soft or "coded constant behind the prefix differs"
-                values[st.name] = int.from_bytes(raw, "big")
+                values[st.name] = (int.from_bytes(raw, "big") >> bit) & ((1 << nbits) - 1)
             elif st.kind == "MATCHING-REQUEST-PARAM":
                 if raw[:len(st.arg)] != st.arg:
                     if st.hard:
@@ -249,7 +274,9 @@ class RefLayer:
         out = bytearray(pl.length)
         for st in pl.steps:
             if st.kind == "CODED-CONST":
-                bs = st.arg
+                for i, x in enumerate(st.arg[0]):
+                    out[st.pos + i] |= x
+                continue
             elif st.kind == "MATCHING-REQUEST-PARAM":
                 p = next(q for q in self.msgs[msg]["params"] if q["name"] == st.name)
                 if request is None or len(request) < p["rq_byte"] + st.n:
@@ -269,14 +296,15 @@ class RefLayer:
             for m in self.own[svc["name"]]:
                 for st in self.plan_for(m, b"").steps:
                     if st.kind == "CODED-CONST":
-                        s.update(st.arg)
+                        s.update(st.arg[0])
                     elif st.kind == "NRC-CONST":
                         for v in st.arg:
                             s.update(v.to_bytes(st.n, "big"))
+                s.update(self.plan_for(m, b"").prefix)  # (constants sharing a byte: the assembled byte)
         for m in self.gnrs:
             for st in self.plan_for(m, b"").steps:
                 if st.kind == "CODED-CONST":
-                    s.update(st.arg)
+                    s.update(st.arg[0])
                 elif st.kind == "NRC-CONST":
                     for v in st.arg:
                         s.update(v.to_bytes(st.n, "big"))
